@@ -187,3 +187,32 @@ def guard_atoms(t):
                 out.append(a)
         t = t[3]
     return out
+
+
+def resolve(t, atom_value, _memo=None):
+    """Rewrite `t` with every conditional (anywhere inside it) whose guard is
+    decided by `atom_value` replaced by the selected branch; undecided
+    conditionals are kept."""
+    from .terms import intern
+    memo = {} if _memo is None else _memo
+
+    def go(x):
+        if not isinstance(x, tuple) or not x:
+            return x
+        k = id(x)
+        if k in memo:
+            return memo[k][1]
+        if isinstance(x[0], str) and x[0] == 'ite' and len(x) == 4:
+            c = eval3(x[1], atom_value)
+            if c is not None:
+                r = go(x[2] if c else x[3])
+                memo[k] = (x, r)
+                return r
+        r = tuple(go(y) for y in x)
+        memo[k] = (x, r)
+        return r
+    out = go(t)
+    try:
+        return intern(out)
+    except Exception:
+        return out
